@@ -21,6 +21,10 @@ var (
 	c17pWriteOnPong = sim.RegStat("probe:c17-app-write-started-while-control-reply-flush-pending")
 	c17pReadOnWrite = sim.RegStat("probe:c17-read-started-while-app-write-in-flight")
 	c17pPong        = sim.RegStat("probe:c17-automatic-pong")
+	c17pChainRW     = sim.RegStat("probe:c17-write-started-from-inside-a-read-completion")
+	c17pChainRR     = sim.RegStat("probe:c17-read-started-from-inside-a-read-completion")
+	c17pChainWW     = sim.RegStat("probe:c17-write-started-from-inside-a-write-completion")
+	c17pChainWR     = sim.RegStat("probe:c17-read-started-from-inside-a-write-completion")
 )
 
 type c17Op struct {
@@ -45,6 +49,7 @@ type c17 struct {
 	pongs    [][]byte  // payloads of pings the read path has consumed
 	closed   bool
 	writeSeq []int // completion order of application writes (op ids)
+	chain    int   // how many more operations completion callbacks may start themselves
 }
 
 func (d *c17) newOp(kind string) *c17Op {
@@ -58,6 +63,36 @@ func (d *c17) done(op *c17Op) {
 	d.w.Tracef("c17 op %d %s complete #%d err=%v", op.id, op.kind, op.calls, op.err)
 	if op.calls > 1 {
 		d.c.Failf("callback-invoked-twice/"+op.kind, "the callback of %s (op %d) was invoked %d times", op.kind, op.id, op.calls)
+	}
+}
+
+// chainFrom: what handlers usually do - the completion callback starts the next operation itself.
+func (d *c17) chainFrom(read bool) {
+	if d.chain <= 0 || d.closed {
+		return
+	}
+	w := d.w
+	switch w.Choose(4) {
+	case 1:
+		if d.rd == nil {
+			d.chain--
+			if read {
+				w.Stat(c17pChainRR)
+			} else {
+				w.Stat(c17pChainWR)
+			}
+			d.startRead()
+		}
+	case 2, 3:
+		if d.wr == nil {
+			d.chain--
+			if read {
+				w.Stat(c17pChainRW)
+			} else {
+				w.Stat(c17pChainWW)
+			}
+			d.startWrite(w.Choose(3))
+		}
 	}
 }
 
@@ -94,6 +129,7 @@ func (d *c17) startReadKind(frame bool) {
 			d.done(op)
 			d.rd = nil
 			d.onRead(op)
+			d.chainFrom(true)
 		})
 	} else {
 		op := d.newOp("AsyncNextMessage")
@@ -104,6 +140,7 @@ func (d *c17) startReadKind(frame bool) {
 			d.done(op)
 			d.rd = nil
 			d.onRead(op)
+			d.chainFrom(true)
 		})
 	}
 	if d.rd != nil && d.wr != nil {
@@ -170,6 +207,7 @@ func (d *c17) startWrite(kind int) {
 			if err != nil {
 				d.c.Failf("write-failed-on-healthy-transport/"+op.kind, "%s failed with %v although the transport is healthy", op.kind, err)
 			}
+			d.chainFrom(false)
 		}
 	}
 	switch kind {
@@ -274,6 +312,7 @@ func runC17(c *Ctx, variant int) {
 			d.startWrite(3)
 		}
 	} else {
+		d.chain = w.Pick(0, 2, 6)
 		steps := w.Range(3, 20)
 		for i := 0; i < steps; i++ {
 			switch w.Choose(10) {
